@@ -43,7 +43,7 @@ def cases(draw, rot=0):
         'lines': lines, 'fault': fault, 'defs': defs, 'compress': draw(st.booleans()), 'hexoff': hexoff,
         'o': draw(st.sampled_from(['default', 'out.bin', 'build/fw.bin', 'fw.hex', 'build/OUT.HEX'])), 'l': draw(st.sampled_from([None, 'labels.txt', 'build/fw.labels'])),
         # where the program lives relative to the working directory (output paths are relative to the working directory)
-        'src': draw(st.sampled_from(['cwd', 'cwd', 'sub', 'abs', 'symlink'])),
+        'src': draw(st.sampled_from(['cwd', 'cwd', 'sub', 'abs', 'symlink', 'stdin'])),
         'incfile': draw(st.booleans()),
         # older output files: none / unrelated contents / the -o file already holds exactly this program (a rebuild), the others stale
         'old': draw(st.sampled_from([False, True, True, 'same', 'empty'])),     # 'empty': the older -o file has no bytes
@@ -67,10 +67,14 @@ def judge(c, res):
                 f.write('\n'.join(lines[k:]) + ('\n' if len(lines) % 3 else ''))    # (one in three without a final newline)
             lines = lines[:k] + ['include part.asm']
         srck = c.get('src', 'cwd')
-        srcdir = {'cwd': work, 'sub': os.path.join(work, 'src'), 'abs': os.path.join(root, 'proj'), 'symlink': work}[srck]
+        if srck == 'stdin' and not os.path.exists('/dev/stdin'):
+            srck = 'cwd'
+            res.count('no_dev_stdin')
+        srcdir = {'cwd': work, 'sub': os.path.join(work, 'src'), 'abs': os.path.join(root, 'proj'), 'symlink': work, 'stdin': work}[srck]
         os.makedirs(srcdir, exist_ok=True)
         main_path = os.path.join(srcdir, 'main.asm')
-        main_arg = {'cwd': 'main.asm', 'sub': os.path.join('src', 'main.asm'), 'abs': main_path, 'symlink': 'main.asm'}[srck]
+        # 'stdin': the program is piped in and named /dev/stdin (an input path need not be a regular file; its includes come from -i)
+        main_arg = {'cwd': 'main.asm', 'sub': os.path.join('src', 'main.asm'), 'abs': main_path, 'symlink': 'main.asm', 'stdin': '/dev/stdin'}[srck]
         real_path = main_path
         if srck == 'symlink':
             # main.asm is a symbolic link into another directory; a file it includes sits next to the LINK (files are searched
@@ -111,7 +115,8 @@ def judge(c, res):
             argv = (['--include-definitions'] + argv) if len(c['lines']) % 2 else (argv[:-1] + ['--include-definitions'] + argv[-1:])
         if c.get('verbose'):
             argv = ['-v'] + argv
-        p = subprocess.run(CLI + argv, cwd=work, env=env.repo_python_env(), stdout=subprocess.PIPE, stderr=subprocess.PIPE, timeout=120)
+        piped = open(real_path, 'rb').read() if srck == 'stdin' else b''
+        p = subprocess.run(CLI + argv, cwd=work, env=env.repo_python_env(), input=piped, stdout=subprocess.PIPE, stderr=subprocess.PIPE, timeout=120)
         after = snapshot(root)
         files = {k: (open(pth, 'rb').read() if os.path.exists(pth) else None) for k, pth in paths.items()}
     payload = {'kind': 'cli', 'params': c}
